@@ -316,10 +316,28 @@ def auto_patterns(vars_, body):
     cands.sort(key=lambda c: len(c[0].sexpr()))
     full = [c for c in cands if c[1] == vset]
     if full:
+        # every *minimal* candidate (no other candidate inside it) is an alternative trigger: an instance is
+        # produced whenever any one of them occurs in the ground context
+        def contains(big, small):
+            stack = [big]
+            sid = small.get_id()
+            while stack:
+                x = stack.pop()
+                if x.get_id() == sid:
+                    return True
+                if z3.is_app(x):
+                    stack.extend(x.children())
+            return False
+
         pats = []
-        for e, _ in full[:2]:
-            if not any(z3.eq(e, p) for p in pats):
-                pats.append(e)
+        for e, _ in full:
+            if any(z3.eq(e, p) for p in pats):
+                continue
+            if any(contains(e, p) for p in pats):
+                continue
+            pats.append(e)
+            if len(pats) >= 6:
+                break
         return pats
     chosen, covered = [], set()
     for e, m in cands:
@@ -376,6 +394,8 @@ class DslMixin:
                     env[p] = self.ev(defaults[p])
                 else:
                     raise Unsupported(f"spec function {fn.name}: missing argument {p} (line {line})")
+        if all(a.annotation is not None for a in fn.node.args.args) and fn.node.args.args:
+            return self.call_defined(fn, [env[p] for p in pnames], line)
         saved = self.st.env
         self.st.env = {k: (self._bindable(v) if self.spec_mode == 0 else v) for k, v in env.items()}
         self.spec_mode += 1
@@ -384,6 +404,49 @@ class DslMixin:
         finally:
             self.spec_mode -= 1
             self.st.env = saved
+
+    def call_defined(self, fn: SpecFn, args, line):
+        """A spec function whose parameters are all type-annotated is *opaque*: it becomes an uninterpreted
+        function with one definitional axiom  forall params. f(params) == body  (trigger: the application).
+        Big formulas then mention atoms, and the solver unfolds a definition only where an application occurs."""
+        from .symex import Frame
+        key = f"def:{fn.name}"
+        defined = self.w.__dict__.setdefault("defined", {})
+        if key not in defined:
+            mod = self.specs.default_module.get(fn.module) or (self.frames[-1].module if self.frames else None)
+
+            def ann_ty(a):
+                node = a
+                if isinstance(node, ast.Constant) and isinstance(node.value, str):
+                    node = ast.parse(node.value, mode="eval").body
+                return self.w.resolve_ann(node, mod)
+
+            ptys = [ann_ty(a.annotation) for a in fn.node.args.args]
+            rty = ann_ty(fn.node.returns) if fn.node.returns is not None else T.BOOL
+            f = z3.Function(key, *[self.w.sort(t) for t in ptys], self.w.sort(rty))
+            defined[key] = (f, ptys, rty)
+            vs = [z3.Const(f"{fn.name}.{a.arg}", self.w.sort(t)) for a, t in zip(fn.node.args.args, ptys)]
+            saved = (self.st.env, self.binders, self.facts, self.spec_mode, self.frames)
+            self.st.env = {a.arg: SV(v, t) for a, v, t in zip(fn.node.args.args, vs, ptys)}
+            self.binders, self.facts, self.spec_mode = [], None, 1
+            self.frames = list(self.frames) + [Frame(mod, fn.name)]
+            try:
+                with self.binder(vs, []):
+                    body = self.eval_pure_body(fn.node.body)
+                    if rty == T.BOOL:
+                        bterm = self.truthy(body)
+                    else:
+                        bterm = self.coerce(body, rty, line).term
+            finally:
+                self.st.env, self.binders, self.facts, self.spec_mode, self.frames = saved
+            self.w.axioms.append(z3.ForAll(vs, f(*vs) == bterm, patterns=[f(*vs)], qid=key))
+        f, ptys, rty = defined[key]
+        av = []
+        for a, t in zip(args, ptys):
+            if isinstance(a, LazySeq):
+                a = self.materialize(a)
+            av.append(self.coerce(a, t, line).term)
+        return SV(f(*av), rty)
 
     def eval_pure_body(self, stmts):
         """straight-line assignments, if/else returning values, final return  ->  value (ite-merged)"""
@@ -439,9 +502,10 @@ class DslMixin:
         else:
             f = z3.And(*hyps, body) if hyps else body
         pats = auto_patterns([var], f)
+        qid = f"{self.frames[-1].fn_name if self.frames else ''}:{line}"
         if kind == "forall":
-            return z3.ForAll([var], f, patterns=pats) if pats else z3.ForAll([var], f)
-        return z3.Exists([var], f, patterns=pats) if pats else z3.Exists([var], f)
+            return z3.ForAll([var], f, patterns=pats, qid=qid) if pats else z3.ForAll([var], f, qid=qid)
+        return z3.Exists([var], f, patterns=pats, qid=qid) if pats else z3.Exists([var], f, qid=qid)
 
     def _lam(self, node, idx):
         v = self.ev(node.args[idx])
